@@ -280,13 +280,13 @@ func c12spawn(p *core.Prog, sp *ssa.Function) (bool, string) {
 	if parentStore == nil || childInsert == nil {
 		return false, "Spawn does not record parent and children"
 	}
-	if fa := parentStore.Addr.(*ssa.FieldAddr); core.ResolveIP(p, fa.X) != ssa.Value(child) || core.ResolveIP(p, parentStore.Val) != ssa.Value(recv) {
+	if fa := parentStore.Addr.(*ssa.FieldAddr); core.ResolveIP(p, core.FieldOwner(fa)) != ssa.Value(child) || core.ResolveIP(p, parentStore.Val) != ssa.Value(recv) {
 		return false, "parent link is not child.parent = receiver"
 	}
 	mapBase := ssa.Value(nil)
 	if ld, isLd := core.Unwrap(childInsert.Map).(*ssa.UnOp); isLd {
 		if fa, isFA := ld.X.(*ssa.FieldAddr); isFA {
-			mapBase = core.ResolveIP(p, fa.X)
+			mapBase = core.ResolveIP(p, core.FieldOwner(fa))
 		}
 	}
 	if mapBase != ssa.Value(recv) || core.ResolveIP(p, childInsert.Value) != ssa.Value(child) {
@@ -296,7 +296,7 @@ func c12spawn(p *core.Prog, sp *ssa.Function) (bool, string) {
 	if !isKL || core.FieldKey(childInsert.Key) != "ActorDef.id" {
 		return false, "child is not registered under its own id"
 	}
-	if kfa, isFA := keyLd.X.(*ssa.FieldAddr); !isFA || core.ResolveIP(p, kfa.X) != ssa.Value(child) {
+	if kfa, isFA := keyLd.X.(*ssa.FieldAddr); !isFA || core.ResolveIP(p, core.FieldOwner(kfa)) != ssa.Value(child) {
 		return false, "child is not registered under its own id"
 	}
 	// both on the not-closed edge (at the store or at the call that leads to it)
